@@ -107,6 +107,7 @@ mod verif_driver_reduce {
     // ExpectInput placed at that position (depth 1), plus one level of nesting through each
     // Expression variant that has children.
     fn marker(name: &str) -> Expression { Expression::EvalParam(Box::new(Param::ExpectValue(name.to_string(), Type::Int))) }
+    fn bytes_marker(name: &str) -> Expression { Expression::EvalParam(Box::new(Param::ExpectValue(name.to_string(), Type::Bytes))) }
     fn fee_marker() -> Expression { Expression::EvalParam(Box::new(Param::ExpectFees)) }
     fn query_marker(name: &str) -> Expression {
         Expression::EvalParam(Box::new(Param::ExpectInput(name.to_string(), InputQuery {
@@ -277,6 +278,61 @@ mod verif_driver_reduce {
         println!("VERIF-CASES fn=apply n={n}");
     }
 
+
+    // canonical form for comparing results: the order of the entries of an `Assets` list is not significant
+    // (it follows HashMap iteration order inside CanonicalAssets), everything else is
+    fn canon(e: &mut Expression) {
+        match e {
+            Expression::List(v) => v.iter_mut().for_each(canon),
+            Expression::Map(v) => v.iter_mut().for_each(|(k, x)| { canon(k); canon(x); }),
+            Expression::Tuple(t) => { canon(&mut t.0); canon(&mut t.1); }
+            Expression::Struct(s) => s.fields.iter_mut().for_each(canon),
+            Expression::Assets(v) => {
+                for a in v.iter_mut() { canon(&mut a.policy); canon(&mut a.asset_name); canon(&mut a.amount); }
+                v.sort_by_key(|a| format!("{:?}|{:?}", a.policy, a.asset_name));
+            }
+            Expression::EvalParam(p) => match p.as_mut() {
+                Param::Set(x) => canon(x),
+                Param::ExpectInput(_, q) => { canon(&mut q.address); canon(&mut q.min_amount); canon(&mut q.r#ref); }
+                _ => {}
+            },
+            Expression::EvalBuiltIn(op) => match op.as_mut() {
+                BuiltInOp::NoOp(x) | BuiltInOp::Negate(x) => canon(x),
+                BuiltInOp::Add(a, b) | BuiltInOp::Sub(a, b) | BuiltInOp::Concat(a, b) | BuiltInOp::Property(a, b) => { canon(a); canon(b); }
+            },
+            Expression::EvalCompiler(op) => match op.as_mut() {
+                CompilerOp::BuildScriptAddress(x) | CompilerOp::ComputeMinUtxo(x) | CompilerOp::ComputeSlotToTime(x) | CompilerOp::ComputeTimeToSlot(x) => canon(x),
+                CompilerOp::ComputeTipSlot => {}
+            },
+            Expression::EvalCoerce(c) => match c.as_mut() {
+                Coerce::NoOp(x) | Coerce::IntoAssets(x) | Coerce::IntoDatum(x) | Coerce::IntoScript(x) => canon(x),
+            },
+            Expression::AdHocDirective(d) => d.data.values_mut().for_each(canon),
+            _ => {}
+        }
+    }
+
+    fn canon_tx(mut t: Tx) -> String {
+        canon(&mut t.fees);
+        t.references.iter_mut().for_each(canon);
+        for i in t.inputs.iter_mut() { canon(&mut i.utxos); canon(&mut i.redeemer); }
+        for o in t.outputs.iter_mut() { canon(&mut o.address); canon(&mut o.datum); canon(&mut o.amount); }
+        if let Some(v) = t.validity.as_mut() { canon(&mut v.since); canon(&mut v.until); }
+        for m in t.mints.iter_mut().chain(t.burns.iter_mut()) { canon(&mut m.amount); canon(&mut m.redeemer); }
+        for c in t.collateral.iter_mut() { canon(&mut c.utxos); }
+        if let Some(sg) = t.signers.as_mut() { sg.signers.iter_mut().for_each(canon); }
+        for m in t.metadata.iter_mut() { canon(&mut m.key); canon(&mut m.value); }
+        // directive data is a HashMap: print it key-sorted
+        let adhoc: Vec<String> = t.adhoc.iter_mut().map(|d| {
+            d.data.values_mut().for_each(canon);
+            let mut kv: Vec<String> = d.data.iter().map(|(k, v)| format!("{k}={v:?}")).collect();
+            kv.sort();
+            format!("{}{{{}}}", d.name, kv.join(","))
+        }).collect();
+        t.adhoc = vec![];
+        format!("{t:?} adhoc={adhoc:?}")
+    }
+
     // ---- C07: reduce is idempotent and stage order does not matter (bounded: the same grid)
     #[test]
     fn reduce_idempotent_and_stages_commute() {
@@ -287,9 +343,24 @@ mod verif_driver_reduce {
             ("-(1+2)", Expression::EvalBuiltIn(Box::new(BuiltInOp::Negate(Expression::EvalBuiltIn(Box::new(BuiltInOp::Add(num(1), num(2)))))))),
             ("[7,8][p]", Expression::EvalBuiltIn(Box::new(BuiltInOp::Property(Expression::List(vec![num(7), num(8)]), marker("p"))))),
             ("tip+p", Expression::EvalBuiltIn(Box::new(BuiltInOp::Add(Expression::EvalCompiler(Box::new(CompilerOp::ComputeTipSlot)), marker("p"))))),
+            // partially constant operands: a fold that fires before the pending part is supplied must not change the result
+            ("token(b)+ada", Expression::EvalBuiltIn(Box::new(BuiltInOp::Add(
+                Expression::Assets(vec![AssetExpr { policy: bytes_marker("b"), asset_name: Expression::Bytes(b"T".to_vec()), amount: num(1) }]),
+                Expression::Assets(vec![AssetExpr { policy: Expression::None, asset_name: Expression::None, amount: num(2000000) }]))))),
+            ("token(.,b)-ada", Expression::EvalBuiltIn(Box::new(BuiltInOp::Sub(
+                Expression::Assets(vec![AssetExpr { policy: Expression::Bytes(vec![7; 28]), asset_name: bytes_marker("b"), amount: num(3) }]),
+                Expression::Assets(vec![AssetExpr { policy: Expression::None, asset_name: Expression::None, amount: num(5) }]))))),
+            ("{p:x,1:y}[1]", Expression::EvalBuiltIn(Box::new(BuiltInOp::Property(
+                Expression::Map(vec![(marker("p"), Expression::String("override".into())), (num(1), Expression::String("default".into()))]), num(1))))),
+            ("[p,8][0]", Expression::EvalBuiltIn(Box::new(BuiltInOp::Property(Expression::List(vec![marker("p"), num(8)]), num(0))))),
+            ("-(-p)", Expression::EvalBuiltIn(Box::new(BuiltInOp::Negate(Expression::EvalBuiltIn(Box::new(BuiltInOp::Negate(marker("p")))))))),
+            ("100+-(-p)", Expression::EvalBuiltIn(Box::new(BuiltInOp::Add(num(100), Expression::EvalBuiltIn(Box::new(BuiltInOp::Negate(Expression::EvalBuiltIn(Box::new(BuiltInOp::Negate(marker("p"))))))))))),
+            ("concat(s,p)", Expression::EvalBuiltIn(Box::new(BuiltInOp::Concat(Expression::String("a".into()), marker("p"))))),
         ];
-        let args = BTreeMap::from([("p".to_string(), ArgValue::Int(1))]);
-        for (lname, leaf) in leafs {
+      for pval in [1i128, i128::MIN, i128::MAX] {
+        let args = BTreeMap::from([("p".to_string(), ArgValue::Int(pval)), ("b".to_string(), ArgValue::Bytes(vec![9; 28]))]);
+        for (lname, leaf) in leafs.clone() {
+            let lname = format!("{lname} [p={pval}]");
             for (wname, wexpr) in wrappers(leaf.clone()) {
                 if wname.starts_with("Coerce.Into") { continue; } // coercions of non-asset operands are type errors
                 for (pos, tx) in tx_positions(wexpr.clone()) {
@@ -307,8 +378,8 @@ mod verif_driver_reduce {
                         }
                         let t = reduce(t).map_err(|e| format!("{e:?}"))?;
                         let again = reduce(t.clone()).map_err(|e| format!("{e:?}"))?;
-                        if format!("{again:?}") != format!("{t:?}") { return Err("reduce not idempotent".into()); }
-                        Ok(format!("{t:?}"))
+                        if canon_tx(again) != canon_tx(t.clone()) { return Err("reduce not idempotent".into()); }
+                        Ok(canon_tx(t))
                     };
                     let base = quiet(|| run(&[0, 1, 2], false));
                     for order in [[0u8, 1, 2], [0, 2, 1], [1, 0, 2], [1, 2, 0], [2, 0, 1], [2, 1, 0]] {
@@ -317,6 +388,8 @@ mod verif_driver_reduce {
                             match (&base, &r) {
                                 (Ok(Ok(a)), Ok(Ok(b))) if a == b => {}
                                 (Ok(Err(a)), Ok(Err(b))) if a != "reduce not idempotent" && b != "reduce not idempotent" => {}
+                                // the same panic in both orders is not an order dependence (it is a C14 matter, reported by the C14 drivers)
+                                (Err(a), Err(b)) if a == b => {}
                                 _ => witness("c07_reduce/reduce#postcondition", "reduce", format!("{input} order={order:?} interleave={inter}"), format!("{:?} vs {:?}", base.as_ref().map(|x| x.as_ref().map(|s| s.len())), r.as_ref().map(|x| x.as_ref().map(|s| s.len()))), "same fully reduced template for every stage order; reduce idempotent"),
                             }
                         }
@@ -324,6 +397,7 @@ mod verif_driver_reduce {
                 }
             }
         }
+      }
         println!("VERIF-CASES fn=reduce n={n}");
     }
 }
